@@ -136,6 +136,20 @@ EDITS = [
     ("retype-argument-int-to-float", "bump(by: Int = 1)", "bump(by: Float = 1)", "by"),
     ("retype-argument-string-to-id", "search(text: String!, limit: Int = 5", "search(text: ID!, limit: Int = 5", "text"),
     ("retype-field-object-to-interface", "  me: User\n", "  me: Named\n", "me"),
+    # an object's own refinement of a field it inherits from an interface (the interface itself is unchanged)
+    ("retype-inherited-field-tightened-on-object", "type Dog implements Named {\n  name: String\n", "type Dog implements Named {\n  name: String!\n", "name"),
+    ("inherited-field-argument-added-on-object", "type Cat implements Named {\n  name: String\n", "type Cat implements Named {\n  name(upper: Boolean): String\n", "upper"),
+    ("inherited-field-argument-default-on-object", "type Cat implements Named {\n  name: String\n", "type Cat implements Named {\n  name(upper: Boolean = true): String\n", "upper"),
+    ("inherited-field-deprecated-on-object", "type Dog implements Named {\n  name: String\n", "type Dog implements Named {\n  name: String @deprecated\n", "name"),
+    ("retype-inherited-field-on-object", "type User implements Node & Named {\n  id: ID!\n  name: String\n", "type User implements Node & Named {\n  id: ID!\n  name: String!\n", "name"),
+]
+
+# operations that are valid only against some edited schemas (used where they validate against the 'old' side of a pair)
+EDIT_OPERATIONS = [
+    "{ pets { ... on Cat { name(upper: true) } } }",
+    "{ pets { ... on Cat { name(upper: false) lives } ... on Dog { name } } }",
+    "{ node(id: \"1\", fresh: true) { id } }",
+    "{ me { height maxAgeProbe: age } }",
 ]
 
 # operations valid against BASE_SDL; each exercises some of the elements the edits touch
